@@ -298,7 +298,7 @@ func Random(r *rand.Rand, name string, o Opts) *Project {
 	// ---- weather
 	w := &p.Weather
 	w.Layout = pick(r, o.Layouts)
-	w.Folder = "gen"
+	w.Folder = "w_" + name
 	w.FCode = "W" + fmt.Sprint(10+r.Intn(89))
 	w.NoneValue = pick(r, []float64{-99.9, -99, 999.9})
 	w.NumHeader = 2
